@@ -1039,6 +1039,7 @@ class ArgumentParser(ParserDeprecations, ActionsContainer, ArgumentLinking, argp
             with change_to_path_dir(default_config_file), parser_context(parent_parser=self):
                 cfg_file = self._load_config_parser_mode(default_config_file.get_content(), key=key)
                 cfg = self.merge_config(cfg_file, cfg)
+                exit_on_error, self.exit_on_error = self.exit_on_error, False  # errors are re-raised below
                 try:
                     with _ActionPrintConfig.skip_print_config():
                         cfg = self._parse_common(
@@ -1053,6 +1054,8 @@ class ArgumentParser(ParserDeprecations, ActionsContainer, ArgumentLinking, argp
                     raise argument_error(
                         f'Problem in default config file "{default_config_file}": {ex.args[0]}'
                     ) from ex
+                finally:
+                    self.exit_on_error = exit_on_error
             meta = cfg.get("__default_config__")
             if isinstance(meta, list):
                 meta.append(default_config_file)
